@@ -208,24 +208,25 @@ def install(I):
 
 def jobs(tier, seed, report):
     inits = [(m, x) for m in META0 for x in INDEX0 if invariant({'meta': m, 'index': x})]
-    report.bounds = {'initial_disk_states': f'{len(inits)} (all combinations of {len(META0)} metadata states and {len(INDEX0)} index states that satisfy the invariant)', 'starts': '3 consecutive starts', 'crashes': 'each of the first two starts dies after a solver-chosen environment call or completes', 'assets': ASSETS}
+    report.bounds = {'initial_disk_states': f'{len(inits)} (all combinations of {len(META0)} metadata states and {len(INDEX0)} index states that satisfy the invariant)', 'starts': '3 consecutive starts (thorough: 4)', 'crashes': 'each start but the last dies after a solver-chosen environment call or completes', 'assets': ASSETS}
     report.outside = ['tantivy\'s own crash atomicity inside commit', 'real file-system semantics (fsync, partial writes of meta.json beyond "created but not yet written")', 'several instances running concurrently', 'the in-memory database (no disk state)']
     report.assumptions = ['environment contracts listed in the module docstring', 'hash_assets and the package version identify the shipped data ("current")']
     report.models_used = ['core', 'coll', 'strings', 'c15 environment model (abstract disk)']
     report.required_witnesses = ['start-serves-current', 'rebuild-performed', 'no-rebuild-needed', 'crash-then-recover', 'crash-between-commit-and-meta', 'garbage-meta-recovered', 'missing-index-recovered']
-    return [{'name': f'init-{i}', 'meta': m, 'index': x} for i, (m, x) in enumerate(inits)]
+    return [{'name': f'init-{i}', 'meta': m, 'index': x, 'starts': 3 if tier == 'quick' else 4} for i, (m, x) in enumerate(inits)]
 
 def run_job(job, res, prefixes, budget, deadline):
-    I = harness.interp_for('dev')
+    I = harness.interp_for('dev', {'c15_starts': job.get('starts', 3)})
     install(I)
     OPEN = rt.find_fn(I, 'open_inner', contains='db')
     def entry(I):
         disk = {'meta': job['meta'], 'index': job['index']}
         env = {'disk': disk, 'trace': [], 'broken': [], 'k': 0, 'crash_at': None, 'start': 0, 'outcomes': [], 'crashes': [], 'version': gs(I, I.const('config::VERSION')).text()}
         I.path_state['env'] = env
-        for s in range(3):
+        nstarts = I.params.get('c15_starts', 3)
+        for s in range(nstarts):
             env['start'] = s; env['k'] = 0; env['crashed_after'] = None
-            if s < 2:
+            if s < nstarts - 1:
                 c = z3.Int(f'crash{s}'); I.assume(z3.And(c >= -1, c <= 14))
                 cv = I.concretize(c, limit=20, what='crash point')
                 env['crash_at'] = None if cv < 0 else cv
@@ -244,7 +245,7 @@ def run_job(job, res, prefixes, budget, deadline):
         if e0 is None: return
         def case():
             return {'op': 'open_sequence', 'meta': job['meta'] if isinstance(job['meta'], str) else list(job['meta']), 'index': job['index'] if isinstance(job['index'], str) else list(job['index']),
-                    'crashes': [c for c in e0['crashes']] + [None] * (3 - len(e0['crashes'])), 'crash_names': [o[1] if o[0] == 'crashed' else None for o in e0['outcomes']], 'scratch': harness.ROOT + '/.cache/c15-scratch'}
+                    'crashes': [c for c in e0['crashes']] + [None] * (4 - len(e0['crashes'])), 'crash_names': [o[1] if o[0] == 'crashed' else None for o in e0['outcomes']], 'scratch': harness.ROOT + '/.cache/c15-scratch'}
         def cand(role, detail): res['candidates'].append({'role': role, 'case': case(), 'detail': detail})
         res['obligations'] += 1
         if kind == 'panic': cand('open-panics', str(env)); return
